@@ -224,7 +224,17 @@ impl KnownWord {
     #[must_use]
     pub fn exp(self, rhs: Self) -> Self {
         // The operation takes place in native endianness, which in our case is LE
-        KnownWord::from_le(self.value.wrapping_pow(rhs.value.as_u32()))
+        let mut base = self.value;
+        let mut exponent = rhs.value;
+        let mut result = U256::ONE;
+        while exponent != U256::ZERO {
+            if exponent & U256::ONE == U256::ONE {
+                result = result.wrapping_mul(base);
+            }
+            base = base.wrapping_mul(base);
+            exponent >>= 1u32;
+        }
+        KnownWord::from_le(result)
     }
 
     /// Computes less-than of two known words.
@@ -287,7 +297,12 @@ impl KnownWord {
     #[must_use]
     pub fn sar(self, rhs: Self) -> Self {
         // We need the value to be signed to make it an arithmetic shift
-        let result = self.value_le_signed() >> rhs.value_le();
+        let value = self.value_le_signed();
+        let result = match u32::try_from(rhs.value_le()) {
+            Ok(shift) if shift < 256 => value >> shift,
+            _ if value < I256::new(0) => I256::new(-1),
+            _ => I256::new(0),
+        };
 
         // We are already LE, but need to turn it back into the unsigned internal rep
         KnownWord::from_le_signed(result)
@@ -402,7 +417,10 @@ impl std::ops::Shl<KnownWord> for KnownWord {
 
     /// Computes the left shift of `self` by `rhs`.
     fn shl(self, rhs: KnownWord) -> Self::Output {
-        KnownWord::from_le(self.value_le() << rhs.value_le())
+        match u32::try_from(rhs.value_le()) {
+            Ok(shift) if shift < 256 => KnownWord::from_le(self.value_le() << shift),
+            _ => KnownWord::zero(),
+        }
     }
 }
 
@@ -411,7 +429,10 @@ impl std::ops::Shr<KnownWord> for KnownWord {
 
     /// Computes the unsigned right shift of `self` by `rhs`.
     fn shr(self, rhs: KnownWord) -> Self::Output {
-        KnownWord::from_le(self.value_le() >> rhs.value_le())
+        match u32::try_from(rhs.value_le()) {
+            Ok(shift) if shift < 256 => KnownWord::from_le(self.value_le() >> shift),
+            _ => KnownWord::zero(),
+        }
     }
 }
 
